@@ -8,11 +8,10 @@ CONSTANTS
   MaxOps = 1000000
   MaxCrash = 3
   MaxFail = 6
-  SwitchFaithful = TRUE
-  ClosePatient = TRUE
-  TrimMayFail = FALSE
+  Relaxed = {}
   MaxLen = 60
   CloseAfter = 25
   CrashEvery = 15
+  Thin = TRUE
 INVARIANTS Dump
 CHECK_DEADLOCK FALSE
